@@ -567,6 +567,10 @@ class AbsInt:
                 return self.f.global_value(base, e.attr)
             except Unfoldable:
                 return Opaque(f'{base.name}.{e.attr}')
+        if isinstance(base, ClassRef) and e.attr == '__name__':
+            return base.info.name
+        if isinstance(base, AList) and e.attr == '__class__' and getattr(base, 'cls', None) is not None:
+            return ClassRef(base.cls)
         if isinstance(base, ClassRef):
             v = self.p.class_attr(base.info, e.attr)
             if v is not None:
@@ -640,7 +644,7 @@ class AbsInt:
                         if not isinstance(spec, str):
                             return Opaque('format spec')
                     conv = {114: 'r', 115: 's', 97: 'a'}.get(v.conversion)
-                    r = strdom.render(val, spec, conv)
+                    r = strdom.render(val, spec, conv, self)
                     if r is None:
                         return Opaque(f'f-string of {val!r}')
                     segs.append(r)
@@ -714,6 +718,10 @@ class AbsInt:
                 r = pa.div(pb)
                 return r if r is not None else Opaque('division by a sum')
             return Opaque(f'{type(op).__name__} on a polynomial')
+        if isinstance(op, ast.Add) and (type(a).__name__ == 'SStr' or type(b).__name__ == 'SStr') \
+                and (isinstance(a, str) or type(a).__name__ == 'SStr') and (isinstance(b, str) or type(b).__name__ == 'SStr'):
+            from . import strdom
+            return strdom.norm(strdom.SStr([a, b]))
         if isinstance(a, Opaque) or isinstance(b, Opaque):
             if isinstance(op, ast.Mod) and isinstance(a, str):
                 return Opaque('str')
@@ -1222,6 +1230,11 @@ class AbsInt:
         if isinstance(e.func, ast.Name) and e.func.id == 'hasattr' and 'hasattr' not in env and len(args) == 2 \
                 and hasattr(args[0], 'absint_hasattr') and isinstance(args[1], str):
             return args[0].absint_hasattr(args[1])
+        if isinstance(e.func, ast.Name) and e.func.id == 'type' and 'type' not in env and len(args) == 1:
+            if isinstance(args[0], AObj) and args[0].cls is not None:
+                return ClassRef(args[0].cls)
+            if isinstance(args[0], AList) and getattr(args[0], 'cls', None) is not None:
+                return ClassRef(args[0].cls)
         if isinstance(e.func, ast.Name) and e.func.id == 'dir' and 'dir' not in env and len(args) == 1 and isinstance(args[0], AObj):
             names = set(args[0].attrs)
             if args[0].cls is not None:
@@ -1329,6 +1342,10 @@ class AbsInt:
             return Opaque('set of symbolic')
         if f in (int,) and args and isinstance(args[0], AV):
             return args[0]
+        if getattr(self, 'str_domain', False) and isinstance(f, Opaque) and f.why == 'global repr' and len(args) == 1:
+            from . import strdom
+            r = strdom.render_repr(args[0], self)
+            return strdom.norm(r) if r is not None else Opaque('repr')
         if getattr(self, 'str_domain', False) and f in (str, int, float) and len(args) == 1:
             from . import strdom
             a0 = args[0]
